@@ -1262,7 +1262,7 @@ impl DragonboxFloat for f32 {
 
         let r = umul96_lower64(two_f, *pow5);
         let parity = (r >> (64 - beta)) & 1;
-        let is_integer = r >> (32 - beta);
+        let is_integer = (r >> (32 - beta)) as u32;
         (parity != 0, is_integer == 0)
     }
 
